@@ -269,7 +269,8 @@ def do_op(ctx, op):
         if obj is None: return 'notLoaded', None
         name = NAMES[op['a']]
         v = enc(KIND[name], getattr(obj, name))
-        if (op['o'], op['a']) not in ctx.written: ctx.seen[(op['o'], op['a'])] = v
+        # the FIRST value the application got counts (reads must be repeatable); own commits update it (after_commit)
+        if (op['o'], op['a']) not in ctx.written: ctx.seen.setdefault((op['o'], op['a']), v)
         return 'ok', v
     if k == 'write':
         obj = ctx.objs.get(op['o'])
@@ -336,8 +337,13 @@ def run_real(env, case):
         rows = after
         if rep['done']: finished[t] = True
     try:
-        for t in case['picks']:
-            if not finished[t]: one(t)
+        for p in case['picks']:
+            if p >= 100:                       # op-level pick: the thread runs until its current operation ends (or it has to wait)
+                t = p - 100
+                while not finished[t]:
+                    one(t)
+                    if trace[-1]['res'] != 'flushing': break
+            elif not finished[p]: one(p)
         guard = 0
         while not all(finished):
             for t in range(n):
@@ -471,17 +477,39 @@ def template_cases(rng, limit):
     pairs.append(([GU, rd(0), K, wr(1, 57), C], [G, wr(0, 67), C]))                    # the for_update exemption ends at commit
     pairs.append(([G, rd(0), {'k': 'fetch', 'o': 1, 'as': [0, 1]}, wr(1, 58), C], [G, wr(0, 68), C]))   # re-fetch of a read attribute
     pairs.append(([G, rd(0), wr(1, 55), F, wr(7, 56), C], [G, rd(1), wr(0, 65), C]))   # two flushes in one transaction
-    for p0, p1 in pairs:
+    generic = 2 * len(ATTRS)
+    for k, (p0, p1) in enumerate(pairs):
         l0, l1 = len(p0), len(p1)
         combos = list(itertools.combinations(range(l0 + l1), l0))
-        if len(combos) > limit: combos = rng.sample(combos, limit)
+        lim = limit if k < generic else 5 * limit      # the special scenarios: (nearly) all interleavings
+        if len(combos) > lim: combos = rng.sample(combos, lim)
         for pos in combos:
             picks = [1] * (l0 + l1)
             for p in pos: picks[p] = 0
-            # each pick is followed by extra picks of the same thread so that multi-statement operations complete (op-level interleaving)
-            picks = [t for t in picks for _ in range(3)]
+            picks = [100 + t for t in picks]       # op-level interleaving (statement-level ones come from the random cases)
             cases.append({'sessOpt': [True, True], 'rows': rows, 'progs': [p0, p1], 'picks': picks})
     return cases
+
+
+def followups(case):
+    """after a divergence: variants of the case in which every session also assigns an attribute it has not touched
+    before it ends, so that a cache that silently went stale shows up as an applied UPDATE (searched with the oracle only)"""
+    out = []
+    for b in range(len(ATTRS)):
+        progs = []
+        for prog in case['progs']:
+            new = []; loaded = []
+            for op in prog:
+                if op['k'] == 'close':
+                    for o in loaded:
+                        if not any(q['k'] == 'write' and q['o'] == o and q['a'] == b for q in new): new.append({'k': 'write', 'o': o, 'a': b, 'v': 77})
+                    loaded = []
+                elif op['k'] in ('get', 'fetch') and op['o'] not in loaded: loaded.append(op['o'])
+                elif op['k'] == 'rollback': loaded = []
+                new.append(op)
+            progs.append(new)
+        out.append(dict(case, progs=progs, picks=[t for t in case['picks'] for _ in range(2)]))
+    return out
 
 
 def canon_case(case):
@@ -510,8 +538,8 @@ def shrink(env, case, kinds):
     return best
 
 
-def run_cases(ctx, env, cases, label):
-    results = []
+def run_cases(ctx, env, cases, label, follow=True):
+    results = []; diverged = []
     for case in cases:
         env.violations = []
         try:
@@ -554,6 +582,11 @@ def run_cases(ctx, env, cases, label):
             d = compare(case, trace, final_rows, mout)
             if d is not None:
                 ctx.divergence('model and real Pony disagree: ' + d['what'], ccase, model=d.get('model'), impl={k: v for k, v in d.items() if k not in ('model', 'what')})
+                if not viol: diverged.append(case)
+    if follow and diverged and not ctx.violations:
+        extra = [c for case in diverged[:6] for c in followups(case)]
+        ctx.count('followup-cases', len(extra))
+        run_cases(ctx, env, extra, 'followup', follow=False)
     return results
 
 
